@@ -293,6 +293,7 @@ pub fn label(v: &Value) -> String {
 const RETURNED: u64 = 0;
 const PANICKED: u64 = 1;
 const TIMEDOUT: u64 = 2;
+const ABORTED: u64 = 3;
 
 /// run `f` in its own thread (main-thread sized stack) with a time limit
 fn timed<T: Send + 'static>(f: impl FnOnce() -> T + Send + 'static, limit: Duration) -> (u64, Result<T, String>) {
@@ -336,7 +337,76 @@ fn node_count(t: &Tree) -> usize {
     1 + t.children.iter().map(node_count).sum::<usize>()
 }
 
+/// Each case runs in a child process (this binary, `C17_CHILD=1`), so that an abort of the
+/// code under test (stack overflow of an unbounded recursion, `abort()`) or a hang of the
+/// whole case is an observation of that case (outcome 3) instead of the end of the run.
 pub fn execute(v: &Value) -> String {
+    if std::env::var("C17_CHILD").is_ok() {
+        return execute_here(v);
+    }
+    static N: std::sync::atomic::AtomicUsize = std::sync::atomic::AtomicUsize::new(0);
+    let n = N.fetch_add(1, std::sync::atomic::Ordering::SeqCst);
+    let base = std::env::temp_dir().join(format!("iwe_verif_c17_{}_{}", std::process::id(), n));
+    let _ = std::fs::create_dir_all(&base);
+    let inp = base.join("in.jsonl");
+    let mut term: Option<String> = None;
+    if std::fs::write(&inp, format!("{}\n", v)).is_ok() {
+        if let Ok(exe) = std::env::current_exe() {
+            let child = std::process::Command::new(exe)
+                .args(["C17", "--inputs", inp.to_str().unwrap(), "--out", base.join("out").to_str().unwrap(), "--shards", "1"])
+                .env("C17_CHILD", "1")
+                .stdout(std::process::Stdio::null())
+                .stderr(std::process::Stdio::null())
+                .spawn();
+            if let Ok(mut ch) = child {
+                let t0 = std::time::Instant::now();
+                let status = loop {
+                    match ch.try_wait() {
+                        Ok(Some(st)) => break Some(st),
+                        Ok(None) => {
+                            if t0.elapsed() > Duration::from_secs(600) {
+                                let _ = ch.kill();
+                                let _ = ch.wait();
+                                break None;
+                            }
+                            std::thread::sleep(Duration::from_millis(2));
+                        }
+                        Err(_) => break None,
+                    }
+                };
+                if status.map(|s| s.success()).unwrap_or(false) {
+                    if let Ok(text) = std::fs::read_to_string(base.join("out").join("cases_000.v")) {
+                        if let (Some(a), Some(b)) = (text.find("(0%N, "), text.rfind("\n].")) {
+                            let body = &text[a + 6..b];
+                            term = body.strip_suffix(')').map(|x| x.to_string());
+                        }
+                    }
+                }
+            }
+        }
+    }
+    let _ = std::fs::remove_dir_all(&base);
+    match term {
+        Some(t) => t,
+        None => {
+            // the child died: the library part is recomputed here, every squash is "aborted"
+            let lc = lib_stage::execute(v);
+            let obs: Vec<String> = v["squash"]
+                .as_array()
+                .cloned()
+                .unwrap_or_default()
+                .iter()
+                .map(|p| {
+                    let key = Key::from_file_name(p[0].as_str().unwrap());
+                    gapp("SO", &[gstr(&key.to_string()), gn(p[1].as_u64().unwrap_or(0).min(255)), gn(ABORTED), "(Panic \"aborted\")".into(), gn(ABORTED), "(Panic \"aborted\")".into()])
+                })
+                .collect();
+            gapp("Case", &[lc, glist(&obs)])
+        }
+    }
+}
+
+fn execute_here(v: &Value) -> String {
     let lc = lib_stage::execute(v);
     let notes = lib_stage::notes_of(v);
     let options = MarkdownOptions { refs_extension: v["ext"].as_str().unwrap_or("").to_string() };
